@@ -18,7 +18,7 @@ Section SafeT.
     - apply HQ.
     - destruct Hc as ((e & -> & Hp & Hd) & Hk). intros g a tr HI Hv. exists a.
       split; [rewrite tag1; eapply InvT_plain; eauto; split; assumption|]. split; [intros ? ?; reflexivity|]. rewrite Hv. apply IH; auto.
-    - destruct Hc as (Hf & Hk). intros g a tr HI Hv. destruct (Hf g) as ((E1 & _ & E3 & E4) & e & Ee & Hp & Hd). exists a. rewrite Ee.
+    - destruct Hc as (Hf & Hk). intros g a tr HI Hv. destruct (Hf g) as ((E1 & _ & E3 & E4 & _) & e & Ee & Hp & Hd). exists a. rewrite Ee.
       split; [rewrite tag1; eapply InvT_plain; eauto; split; assumption|]. split; [intros ? ?; reflexivity|]. rewrite Hv. apply IH; auto.
   Qed.
 
